@@ -946,7 +946,8 @@ SPEC = Spec(
         "evaluates every broadcasting decision tree (tests are_shape_components_equal "
         "(E, A), (E, 1), (A, 1)) on its four consistent abstract cases: equal -> keep, "
         "new length 1 -> keep, remembered length 1 -> take the new one, otherwise "
-        "raise; one-way broadcasts into a given shape likewise."),
+        "raise; one-way broadcasts into a given shape likewise. "
+        "R03-FOLD also: after a working copy of a parameter (dict(p), list(p)) was modified, the parameter is neither read nor re-bound (except from the copy)."),
     not_decided=(
         "dtype promotion, broadcast shapes, slice lengths and which exception type "
         "NumPy would raise: a differential statement against an external library's "
